@@ -10,7 +10,7 @@ ids="$*"
 for id in $ids; do
   prop=$(echo $id | cut -d- -f1)
   out=.work/seeded_results/$id.txt
-  if ! git -C /repo apply seeded/$id/patch.diff; then echo "$id APPLY-FAILED" | tee $out; continue; fi
+  if ! git -C /repo apply "$PWD/seeded/$id/patch.diff"; then echo "$id APPLY-FAILED" | tee $out; continue; fi
   tier=quick
   ./check $prop quick > .work/seeded_results/$id.log 2>&1; rc=$?
   if [ $rc -eq 0 ]; then
